@@ -32,10 +32,11 @@ fn payloads() -> Vec<(&'static str, String)> {
         ("injection-expr", format!("0) }}; fn {MARK}() {{}} //")),
         ("non-ascii", "\u{e9}\u{20ac}\u{4e2d}".into()),
         ("raw-string-start", "r#\"".into()),
+        ("leading-digit", "3dModel".into()),
     ]
 }
 
-const SINKS: [&str; 7] = ["enumeration-value", "facet-value", "documentation", "namespace-uri", "port-address", "soap-action", "xml-name"];
+const SINKS: [&str; 10] = ["enumeration-value", "facet-value", "documentation", "namespace-uri", "port-address", "soap-action", "xml-name-element", "xml-name-attribute", "xml-name-type", "xml-name-operation"];
 
 /// names that are legal XML NCNames but stress identifier mapping
 fn odd_names() -> Vec<&'static str> {
@@ -132,6 +133,12 @@ fn state_for_payload(payload: &str, sink: &str) -> Option<SchemaSet> {
             s.files[0].comps.push(Comp::Simple(SimpleType { name: "DocumentedSimple".into(), doc: Some(payload.to_string()), xmlns: vec![], base: TypeRef::b("string"), facets: vec![], facets_as_attrs: false }));
             Some(s)
         }
+        // names are whatever the attribute value says (not every payload is an NCName; the generator
+        // may refuse such a name, but what it accepts must reach the output as data only)
+        "xml-name-element" => state_for_name(payload, "element"),
+        "xml-name-attribute" => state_for_name(payload, "attribute"),
+        "xml-name-type" => state_for_name(payload, "complexType"),
+        "xml-name-operation" => state_for_name(payload, "operation"),
         "namespace-uri" => {
             let mut s = s0();
             let uri = format!("http://zv.example/ns/{payload}/tail");
@@ -246,6 +253,19 @@ pub fn check(tier: &str) -> i32 {
                                 agg.add(mk("data.literal").exp(format!("a namespaces entry that evaluates to {uri:?}")).act(format!("declared: {:?}", ex.structs.iter().flat_map(|s| s.ya.namespaces.iter().map(|x| x.1.clone())).collect::<std::collections::BTreeSet<_>>())));
                             }
                         }
+                        "xml-name-element" | "xml-name-attribute" => {
+                            // the wire name of the member is the original text
+                            if !ex.structs.iter().any(|st| st.fields.iter().any(|f| f.ya.rename.as_deref() == Some(p.as_str()))) {
+                                bad = true;
+                                agg.add(mk("data.literal").exp(format!("a member whose rename literal evaluates to {p:?}")).act("no such member"));
+                            }
+                        }
+                        "xml-name-type" => {
+                            if !ex.structs.iter().any(|st| st.ya.rename.as_deref() == Some(p.as_str())) {
+                                bad = true;
+                                agg.add(mk("data.literal").exp(format!("a struct whose rename literal evaluates to {p:?}")).act("no such struct"));
+                            }
+                        }
                         _ => {
                             let _ = in_string;
                         }
@@ -325,8 +345,8 @@ pub fn check(tier: &str) -> i32 {
     rep.set("compiled", json!(batch.len()));
     rep.set("compiled_without_error", json!(compiled_ok));
     rep.set("exhaustive", json!(true));
-    rep.set("bound", json!(format!("complete product: {} keywords (strict, reserved, weak; edition 2024) x 8 naming positions (element, attribute, complex type, simple type, global element, operation, message part, service); {} unusual NCNames x the same positions; {} payload strings (quote, backslash, newline, carriage return, braces, comment delimiters, three injection payloads carrying a marker function, non-ASCII, raw-string opener) x 6 sinks (enumeration value, facet value, documentation, namespace URI, port address, soapAction); 5 valid XSD spellings of a numeric facet value (+5, 005, blanks) whose enforcement is checked at run time", all_keywords().len(), odd_names().len(), payloads().len())));
+    rep.set("bound", json!(format!("complete product: {} keywords (strict, reserved, weak; edition 2024) x 8 naming positions (element, attribute, complex type, simple type, global element, operation, message part, service); {} unusual NCNames x the same positions; {} payload strings (quote, backslash, newline, carriage return, braces, comment delimiters, three injection payloads carrying a marker function, non-ASCII, raw-string opener) x 10 sinks (enumeration value, facet value, documentation, namespace URI, port address, soapAction, and the name of an element, an attribute, a complex type, an operation); 5 valid XSD spellings of a numeric facet value (+5, 005, blanks) whose enforcement is checked at run time", all_keywords().len(), odd_names().len(), payloads().len())));
     rep.assume("an input that the generator rejects produces no output, so nothing can be injected; rejection is a violation only for keyword / NCName names (in-subset), not for payload strings (e.g. a non-numeric facet value is not a valid schema)");
-    rep.assume("payloads in XML names are limited to what an NCName allows");
+    rep.assume("a payload used as a NAME is not an NCName; the generator may refuse it (no output, no verdict), but what it accepts must appear as data only");
     rep.finish()
 }
